@@ -35,11 +35,16 @@ pub struct MixSpec {
     pub thorough: bool,
     /// engine B only: leave out the ops whose set-up builds bootstrapping keys (minutes under Miri)
     pub light: bool,
+    /// every op of the run comes from one family (same first two name tokens, e.g. the constant and the
+    /// exponent circuit bootstrap) and gets the same shape: state an op leaves behind on its OS thread
+    /// (thread_local caches keyed too coarsely) then meets a sibling with identical parameters, on a fresh
+    /// thread in the scheduled run and on the long-lived main thread in the reference
+    pub family: bool,
 }
 
 impl MixSpec {
     pub fn to_json(&self) -> Value {
-        json!({"n": self.n, "threads": self.threads, "ops_seed": self.ops_seed, "ops_per_thread": self.ops_per_thread, "thorough": self.thorough, "light": self.light})
+        json!({"n": self.n, "threads": self.threads, "ops_seed": self.ops_seed, "ops_per_thread": self.ops_per_thread, "thorough": self.thorough, "light": self.light, "family": self.family})
     }
     pub fn from_json(v: &Value) -> MixSpec {
         MixSpec {
@@ -49,6 +54,7 @@ impl MixSpec {
             ops_per_thread: v["ops_per_thread"].as_u64().unwrap() as usize,
             thorough: v["thorough"].as_bool().unwrap_or(false),
             light: v["light"].as_bool().unwrap_or(false),
+            family: v["family"].as_bool().unwrap_or(false),
         }
     }
     /// op lists are a function of (ops_seed, thread index, position) only, so shrinking the thread
@@ -72,6 +78,17 @@ impl MixSpec {
                 ops.push(o);
             }
         }
+        let fam_of = |o: &str| -> String { o.split('_').take(2).collect::<Vec<_>>().join("_") };
+        let mut r0 = Rng::new(mix(self.ops_seed, 0x319, 0));
+        // families are drawn uniformly (not by op count), so that small families of heavy ops come up too
+        let mut fams: Vec<String> = self.op_names(backend_name).iter().map(|o| fam_of(o)).collect();
+        fams.sort();
+        fams.dedup();
+        let anchor_fam = r0.pick(&fams).clone();
+        let anchor: &str = &anchor_fam;
+        let mut shape0 = crate::c12::random_shape(&mut r0, self.thorough);
+        shape0.n = self.n;
+        let fam: Vec<&'static str> = self.op_names(backend_name).into_iter().filter(|o| fam_of(o) == fam_of(anchor)).collect();
         (0..self.threads)
             .map(|t| {
                 (0..self.ops_per_thread)
@@ -80,7 +97,8 @@ impl MixSpec {
                         let op = *r.pick(&ops);
                         let mut shape = crate::c12::random_shape(&mut r, self.thorough);
                         shape.n = self.n;
-                        (op, shape, r.next() | 1)
+                        let fill = r.next() | 1;
+                        if self.family { (*r.pick(&fam), shape0.clone(), fill) } else { (op, shape, fill) }
                     })
                     .collect()
             })
@@ -338,6 +356,7 @@ pub fn generate(seed: u64, idx: u64, thorough: bool) -> Run {
             ops_per_thread: rng.range(1, 4) as usize,
             thorough,
             light: false,
+            family: rng.chance(300),
         })
     } else {
         Scenario::Shared(SharedSpec {
@@ -732,6 +751,7 @@ impl CheckImpl for C20 {
             ops_per_thread: 0,
             thorough: false,
             light: true,
+            family: false,
         }
         .op_names("FFT64Ref")
         .len() as u64;
@@ -895,6 +915,7 @@ pub fn miri_main(args: &[String]) -> ! {
                 ops_per_thread: 0,
                 thorough: false,
                 light: true,
+                family: false,
             }
             .op_names(backend_name);
             // <from> is an index into that list or an op name
@@ -950,6 +971,7 @@ pub fn miri_main(args: &[String]) -> ! {
                 ops_per_thread: 2,
                 thorough: false,
                 light: true,
+                family: false,
             };
             crate::sched::UNSCHEDULED.store(true, std::sync::atomic::Ordering::Relaxed);
             let run = Run {
